@@ -210,6 +210,11 @@ func validateUnionCases(env *Environment, errorSink *validation.ErrorSink) *Envi
 				// Check the referenced type with the type arguments provided
 				self.Visit(t.ResolvedDefinition, true)
 			}
+			if !visitingReference {
+				// The type arguments are written here: their tags are validated here too.
+				// (Inside a referenced definition the substituted arguments are reached above.)
+				self.VisitChildren(node, visitingReference)
+			}
 		default:
 			self.VisitChildren(node, visitingReference)
 		}
